@@ -36,11 +36,20 @@ func Hex(b []byte) string { return hex.EncodeToString(b) }
 // Encode renders a value.  Unknown object kinds are opaque (type name + identity).
 func Encode(o ugo.Object, ids *Ids) string {
 	var sb strings.Builder
-	enc(&sb, o, ids)
+	encD(&sb, o, ids, 64)
 	return sb.String()
 }
 
-func enc(sb *strings.Builder, o ugo.Object, ids *Ids) {
+func enc(sb *strings.Builder, o ugo.Object, ids *Ids) { encD(sb, o, ids, 64) }
+
+// encD cuts values nested deeper than `fuel` levels (cyclic containers such as a[0] = a) exactly
+// like the Lean driver's imageOf does: `odeep:0`.
+func encD(sb *strings.Builder, o ugo.Object, ids *Ids, fuel int) {
+	if fuel <= 0 {
+		sb.WriteString("odeep:0")
+		return
+	}
+	enc := func(sb *strings.Builder, o ugo.Object, ids *Ids) { encD(sb, o, ids, fuel-1) }
 	switch v := o.(type) {
 	case nil:
 		sb.WriteString("onil:0")
